@@ -54,6 +54,7 @@ type c13 struct {
 	estUP  []uint64
 	ended  []uint64
 	bursts int
+	pre    seqx.Pre
 }
 
 func c13Spec(tier, scenario string) seqx.Spec {
@@ -67,9 +68,7 @@ func c13Spec(tier, scenario string) seqx.Spec {
 		c := &c13{W: New(1), tier: tier}
 		for p := 0; p < 2; p++ {
 			c.W.Send(p, smf.Assoc(uint32(1), c.W.PeerIP(p)))
-			if v := c.est(p); len(v) > 0 {
-				evid.Infra("C13 prefix: %v", v)
-			}
+			c.pre.Add(c.est(p)...)
 		}
 		return c
 	}}
@@ -332,7 +331,7 @@ func (c *c13) Apply(e seqx.Event) seqx.StepResult {
 		c.sess[p] = nil
 		noEmit("session deletion")
 	}
-	return seqx.StepResult{Obs: e.String() + " => " + o.StringL(c.label), Viols: j.Viols, Tags: j.Tags}
+	return seqx.StepResult{Obs: e.String() + " => " + o.StringL(c.label), Viols: append(c.pre.Take(), j.Viols...), Tags: j.Tags}
 }
 
 var seqCtr uint32 = 1000
